@@ -102,12 +102,22 @@ def shape(node):
     return repr(node)
 
 
-def typecheck(fe, text, **options):
-    """Parse and typecheck a program by interpretation: the typed Program, or ('error', class name, message)."""
+def typecheck(fe, text, prelude=None, **options):
+    """Parse and typecheck a program by interpretation: the typed Program, or ('error', class name, message).  `prelude`
+    (declarations shared by a catalogue of programs) is parsed once per front end and put in front of the program's own
+    declarations."""
     astns = fe.it.load('hidc/ast/__init__.py')
     prog = fe.parse(text)
     if isinstance(prog, tuple) and prog and prog[0] == 'error':
         return prog
+    if prelude:
+        cache = fe.__dict__.setdefault('_preludes', {})
+        if prelude not in cache:
+            cache[prelude] = fe.parse(prelude)
+        pre = cache[prelude]
+        if isinstance(pre, tuple) and pre and pre[0] == 'error':
+            return pre
+        prog = type(prog)(tuple(pre.var_decls) + tuple(prog.var_decls), tuple(pre.func_decls) + tuple(prog.func_decls))
     env = astns['Environment'].empty(**options)
     try:
         return prog.evaluate(env)
